@@ -257,6 +257,15 @@ def run(chk: common.Check) -> None:
                'expect_exc': 'ValueError: done: 4498500', 'expect_out': ''})
     rs.append({'statement': "print('code object')\n", 'statement_kind': 'code', 'policy': {'kind': 'all', 'command': 'next'}, 'timeout': 40,
                'expect_out': 'code object\n'})
+    # a script FILE with a module next to it, a module of the same name earlier on sys.path, and the script's directory on sys.path already
+    # (PYTHONPATH, an inherited sys.path): run directly, the script's directory comes first and the script imports its own sibling
+    for on_path in (True, False):
+        for pol in ({'kind': 'all', 'command': 'next'}, {'kind': 'all', 'command': 'continue'}):
+            rs.append({'statement': "import helper\nhelper.hello()\nprint('end')\n", 'statement_kind': 'path', 'policy': pol, 'timeout': 40,
+                       'modules_env': {'siblings': {'helper': "def hello():\n    print('proj')\n"},
+                                       'shadows': {'helper': "def hello():\n    print('lib')\n    raise RuntimeError('wrong module imported')\n"},
+                                       'script_dir_on_path': on_path},
+                       'expect_out': 'proj\nend\n'})
     for r in common.real_runs(rs, jobs=7, hard_timeout=150):
         sp = r['spec']
         chk.cov.case(('real', sp.get('statement_kind', 'str'), repr(sp.get('signal'))))
